@@ -168,4 +168,52 @@ def spanOf (spans : List TSpan) (lo hi : Nat) : Option TSpan :=
 
 def ITree.span (spans : List TSpan) (t : ITree) : Option TSpan := spanOf spans t.lo t.hi
 
+/-! ## The region a span delimits (the sentence "the recorded begin/end delimit a region of the source whose tokens are
+    exactly the node's tokens")
+
+  The region is defined on the text alone: the characters whose own (line, column) lies in `[begin, end)`. That this region
+  is the stretch from the first consumed token's first character to the last consumed token's last character, and that the
+  lexer tokens lying inside it are exactly the tokens the tree consumed, is *proved* from the interface hypothesis
+  (Props/C16.lean `span_region`, `span_holds_exactly_own_tokens`); one more fact about the lexer is needed and streamed:
+  every token is non-empty and lies inside the text (`tokensInText`; lark refuses zero-width terminals). -/
+
+/-- strict order of positions -/
+def P.lt (a b : P) : Prop := a.line < b.line ∨ (a.line = b.line ∧ a.col < b.col)
+
+instance : LT P := ⟨P.lt⟩
+
+instance (a b : P) : Decidable (a < b) := by
+  show Decidable (a.line < b.line ∨ (a.line = b.line ∧ a.col < b.col)); exact inferInstance
+
+/-- every lexer token is non-empty and lies inside the text -/
+def tokensInText (src : Str) (toks : List OTok) : Bool :=
+  toks.all fun t => decide (t.s < t.e) && decide (t.e ≤ src.length)
+
+/-- the character at offset `k` lies in the region the span delimits: begin ≤ its (line, column) < end -/
+def inRegion (src : Str) (sp : TSpan) (k : Nat) : Prop := sp.b ≤ posOf src k ∧ posOf src k < sp.e
+
+instance (src : Str) (sp : TSpan) (k : Nat) : Decidable (inRegion src sp k) := by
+  unfold inRegion; exact inferInstance
+
+/-- token `t` lies inside the span (by positions, as an observer of the recorded spans sees it) -/
+def tokInSpan (sp t : TSpan) : Prop := sp.b ≤ t.b ∧ t.e ≤ sp.e
+
+instance (sp t : TSpan) : Decidable (tokInSpan sp t) := by
+  unfold tokInSpan; exact inferInstance
+
+/-- first element, count, and "is a run of consecutive numbers" of an index list -/
+def runOf (ks : List Nat) : Nat × Nat × Bool :=
+  match ks with
+  | [] => (0, 0, true)
+  | f :: _ => (f, ks.length, ks == List.range' f ks.length)
+
+/-- driver: the offsets of a position table that lie in `[b, e)` as (first, count, consecutive?) — `tab[k]` is the position of
+    offset `k` (`posScan`); the last entry (end of text) is not a character -/
+def regionOfTable (tab : List P) (sp : TSpan) : Nat × Nat × Bool :=
+  runOf (tab.dropLast.zipIdx.filterMap fun (p, k) => if sp.b ≤ p ∧ p < sp.e then some k else none)
+
+/-- driver: the indices of the token spans that lie inside `sp` as (first, count, consecutive?) -/
+def tokensInSpan (spans : List TSpan) (sp : TSpan) : Nat × Nat × Bool :=
+  runOf (spans.zipIdx.filterMap fun (t, k) => if tokInSpan sp t then some k else none)
+
 end Tranp.Hull
